@@ -841,7 +841,19 @@ func (c *Conn) finish(r *Ctx, stream uint32, err error) {
 		atomic.AddInt32(&c.openStreams, -1)
 	}
 
-	c.deletePending(stream)
+	// Not deletePending: that takes the Ctx, which the callers of finish
+	// already hold, and the lock is not reentrant. A response or RST_STREAM
+	// that ended a request while its streamed body was still waiting to go
+	// out parked the read loop on its own lock for good, and with it every
+	// other request on the connection.
+	c.sendLck.Lock()
+	pb := c.pending[stream]
+	delete(c.pending, stream)
+	c.sendLck.Unlock()
+
+	if pb != nil {
+		c.closeBodyStream(pb)
+	}
 
 	r.markFinished()
 	r.resolve(err)
@@ -1166,6 +1178,11 @@ func (c *Conn) writeRequest(ctx *Ctx) error {
 		c.setLastErr(err)
 		// if we had any error, remove it from the reqQueued.
 		c.dequeueReq(id)
+
+		// deletePending takes the Ctx to close a streamed body, and we still
+		// hold it here: without the release the write loop parked on its own
+		// lock when the HEADERS of such a request failed to go out.
+		release()
 		c.deletePending(id)
 
 		return err
